@@ -380,6 +380,9 @@ func parallelFor(n int, workers int, fn func(i int)) {
 	if workers <= 0 {
 		workers = 16
 	}
+	if caseLog != "" {
+		workers = 1 // crash triage: keep the noted case unambiguous
+	}
 	var wg sync.WaitGroup
 	ch := make(chan int, 1024)
 	for w := 0; w < workers; w++ {
@@ -439,3 +442,22 @@ func (c *collectTB) guard(fn func()) {
 // try runs a piece of library code and returns the recovered panic value (nil if none).
 // Only library calls go inside, never assertions.
 func try(fn func()) (pv any) { return enc.Try(fn) }
+
+// noteCase records the case that is about to be executed when the driver re-runs a crashed worker with
+// VERIF_CASE_LOG set (crash triage: a panic on a library goroutine cannot be recovered, so the last noted case
+// is the crasher).
+var caseLog = os.Getenv("VERIF_CASE_LOG")
+
+func noteCase(property, check string, c any) {
+	if caseLog == "" {
+		return
+	}
+	raw, err := json.Marshal(c)
+	if err != nil {
+		return
+	}
+	b, _ := json.Marshal(Replay{Property: property, Check: check, Case: raw, Observed: "process crashed while executing this case"})
+	replayMu.Lock()
+	_ = os.WriteFile(caseLog, b, 0o644)
+	replayMu.Unlock()
+}
